@@ -45,6 +45,9 @@ def entries(t):
     E.append(('response', 'Response::parse', 'bytes', None, L, b'', b''))
     E.append(('response-head', 'Response::parse', 'bytes', None, L, b'HTTP/1.1 200 OK\r\n', b'\r\n\r\n'))
     E.append(('response-content-length', 'Response::parse', 'bytes', None, (1, 2) if q else (1, 2, 3), b'HTTP/1.1 200 OK\r\nContent-Length: ', b'\r\n\r\nab'))
+    DIG = [ord(ch) for ch in '0123456789']
+    E.append(('request-content-length', 'Request::parse', 'bytes', DIG, (1, 19, 20), b'POST / HTTP/1.1\r\nContent-Length: ', b'\r\n\r\nab'))
+    E.append(('response-content-length-long', 'Response::parse', 'bytes', DIG, (19, 20), b'HTTP/1.1 200 OK\r\nContent-Length: ', b'\r\n\r\nab'))
     E.append(('multipart-form', 'FormMultipartData::parse', 'bytes+boundary', None, (0, 1, 2) if q else (0, 1, 2, 3), b'', b''))
     E.append(('multipart-byteranges', 'Range::parse_multipart_body', 'cursor', None, (0, 1, 2) if q else (0, 1, 2, 3), b'', b''))
     E.append(('multipart-byteranges-sep', 'Range::parse_multipart_body', 'cursor', None, (0, 1, 2), b'--String_separator\r\n', b''))
